@@ -177,3 +177,12 @@ func (i *IRCServer) VerifLookup(id uint64) string {
 	}
 	return "other"
 }
+
+// VerifSetLastActivity sets the last activity of every session to now-age(id).
+func (i *IRCServer) VerifSetLastActivity(age func(id robust.Id) time.Duration, now time.Time) {
+	i.sessionsMu.Lock()
+	defer i.sessionsMu.Unlock()
+	for id, s := range i.sessions {
+		s.LastActivity = now.Add(-age(id))
+	}
+}
